@@ -59,6 +59,78 @@ def sig_window(mm):
     return f"window:{op}"
 
 
+def sig_method(mm):
+    """signature of a disagreement in a method/indicator case: <class>:<component>"""
+    return f"{mm.get('class', 'semantic')}:{mm.get('sub') or mm.get('comp', '?')}"
+
+
+METHOD_GROUPS = {
+    "C02": "sma,wma,swma,trima,hma,linreg,conv,vwma,integral,derivative,momentum,roc,past,stdev,mad,medad,cci,linvol,adi",
+    "C03": "ema,dma,tma,dema,tema,rma,wsma,tsi,vidya,tr,heikin,integral,adi",
+    "C04": "highest,lowest,hldelta,hindex,lindex,smm,medad",
+    "C14": "cross_above,cross_under,cross,upper_rev,lower_rev,reversal",
+}
+
+NUMERIC_TRUST = [
+    "modelled, not verified: IEEE-754 rounding. Theorems hold in exact arithmetic (any linear ordered field); the Rust "
+    "floats are compared with the exact model/spec under the allowance a = 1024*eps*(t+n)*kappa*scale of DESIGN §3.2 "
+    "(quotients through an interval enclosure); mul_add(a,b,c) is modelled as a*b+c",
+    "two correspondence layers per step: L-prop (output and serialized accumulators vs exact model run from new, and "
+    "model vs from-scratch spec exactly) and L-step (one exact model step from the implementation's own serialized "
+    "pre-state, tolerance not growing with the stream)",
+]
+
+
+def methods_check(c, rule, trusted_extra, level="proof"):
+    c.proofs()
+    exe = need_harness(c)
+    if exe:
+        r = run_suite(exe, "methods", c.seed, c.tier, f"{c.prop}-methods", ["--methods", METHOD_GROUPS[c.prop]])
+        c.add_suite(r, sig_method)
+        c.coverage["exempt_steps"] = r.get("summary", {}).get("exempt", 0)
+        c.coverage["lstep_checks"] = r.get("summary", {}).get("lsteps", 0)
+        c.coverage["spec_evaluations"] = r.get("summary", {}).get("spec_evals", 0)
+    return c.finish(level=level, trusted=TRUSTED_COMMON + NUMERIC_TRUST + trusted_extra, rule=rule)
+
+
+def C02(c):
+    return methods_check(c,
+        rule="per method x length (quick: 18 lengths incl. 1,2,127,128,253,254; thorough: all 1..254) x stream class "
+             "(small alphabets, signed zeros, walks, noise at 1e-9..1e9, volatile->flat->volatile, scale jumps, monotone, "
+             "spikes, plateaus), 160-1500 steps, construction value = first input / extra leading copies / unrelated "
+             "value; every step compared (warm-up included); a case is non-trivial when it has >= 1 step",
+        trusted_extra=["proved model=spec: SMA, WMA, Integral, Momentum, Derivative, RateOfChange, Past; the other C02 "
+                       "methods are validated model=spec exactly on every generated step (spec_evaluations) but not yet proved"])
+
+
+def C03(c):
+    return methods_check(c,
+        rule="as C02 for the recursive methods; (short,long) pairs for TSI; valid candle streams (walk, flat regimes, "
+             "plateaus, zero-volume and high==low bars) for TR/HeikinAshi/ADI; state emitted on every step so that the "
+             "L-step layer checks every single update",
+        trusted_extra=["proved: EMA/RMA/WSMA constants and recurrence, DMA, TMA, DEMA, TEMA compositions, cumulative "
+                       "Integral, TR and HeikinAshi step equations; TSI, Vidya, cumulative ADI validated only"])
+
+
+def C04(c):
+    return methods_check(c,
+        rule="as C02 for the selection methods; stream classes biased to tiny alphabets and {-0.0,+0.0} so that ties, "
+             "equal extrema and every order pattern of a short window occur; outputs compared exactly (numeric "
+             "equality, sign of zero free), cached extremum / index / window compared on state lines",
+        trusted_extra=["proved: Highest, Lowest (bit-equality rescan soundness, FloatLike abstraction); "
+                       "HighestLowestDelta, HighestIndex, LowestIndex, SMM, median of MedianAbsDev validated only",
+                       "f64::max/min may return either operand on a numeric tie (+0/-0): outputs are compared numerically"])
+
+
+def C14(c):
+    return methods_check(c,
+        rule="pairs of streams with touches (difference exactly 0), constant bases and zero bases for the crossing "
+             "detectors; all (left,right) with left+right<=12 (quick: <=5 each) plus boundary pairs for the reversal "
+             "detectors on plateau/alphabet/zero streams longer than PeriodType::MAX; Actions compared exactly",
+        trusted_extra=["proved: CrossAbove/CrossUnder definitional over whole streams, Cross = up - down, exclusivity, "
+                       "antisymmetry under swapping; reversal detectors validated only (model with unbounded positions)"])
+
+
 def replay(prop, path):
     """re-run a replay file: real code through the harness, then the driver"""
     text = open(path).read()
@@ -85,4 +157,4 @@ def replay(prop, path):
     return 1 if res["mismatches"] or res.get("error") else 0
 
 
-PROPS = {"C01": C01}
+PROPS = {"C01": C01, "C02": C02, "C03": C03, "C04": C04, "C14": C14}
